@@ -253,6 +253,13 @@ def run_case(case, env, res):
             os.unlink(paged_path)
             return
         res.count("pages of multi-page files with mixed modes")
+    elif case.get("redrawn"):
+        # the instance has rendered once already, from a picture its owner then drew over
+        # in place (same object, size, mode; now the pixels of *src*): the judged render
+        # shows the pixels as they are now
+        work = src.transpose(Image.ROTATE_180)
+        work.info.update(src.info)
+        image = BlockImage(work, width=W, height=H)
     else:
         image = BlockImage(src, width=W, height=H)
     alpha_arg = {"none": None, "thr": thr, "termbg": "#", "hex": "#%02x%02x%02x" % (hexbg or (0, 0, 0))}[alpha_mode]
@@ -273,6 +280,11 @@ def run_case(case, env, res):
         if aborted_render(other, case["abort_at"]):
             res.count("renders preceded by an interrupted render")
     try:
+        if case.get("redrawn") and not paged_path:
+            if _render(case, image, alpha_arg, alpha_mode, thr, how, W, res) is None:
+                return
+            work.paste(src)
+            res.count("renders of an instance whose source was drawn over in place after an earlier render")
         out = _render(case, image, alpha_arg, alpha_mode, thr, how, W, res)
     finally:
         if case.get("partial"):
@@ -373,6 +385,7 @@ def gen(rnd):
         use_termbg=rnd.random() < 0.5,
         partial=rnd.random() < 0.12,
         abort_at=rnd.randint(20, 120) if rnd.random() < 0.1 else None,
+        redrawn=rnd.random() < 0.15,
     )
     if alpha_mode == "thr":
         case["thr"] = rnd.choice([0.0, 40 / 255, 40 / 255, 0.5, 0.999, 0.1569, 0.1568, round(rnd.random() * 0.999, 6)])
